@@ -107,7 +107,7 @@ def cfg? : Sexp → Option Cfg
     pure ⟨← sa.bool?, ← ta.bool?, ← Sexp.listOf? aspec? specs, ← optNat? hold, ← saFirst.bool?, ← startup.int?⟩
   | _ => none
 
-/-- legacy: the configuration may be followed by the numbers of `@state_active` / `@time_active` decorators (default 1 1) -/
+/-- the configuration may be followed by the numbers of `@state_active` / `@time_active` decorators (default 1 1) -/
 def cfgN? : Sexp → Option (Cfg × Nat × Nat)
   | .list [sa, ta, specs, hold, saFirst, startup, nSA, nTA] => do
     pure (← cfg? (.list [sa, ta, specs, hold, saFirst, startup]), ← nSA.nat?, ← nTA.nat?)
@@ -145,10 +145,10 @@ def handle (x : Sexp) : String :=
       s!"model={showFlags (Legacy.runFn F P c nSA nTA es)} spec={showFlags (Spec.runs P c (es.map (·.2)) [])}"
     | _, _, _ => "err parse"
   | .list [.atom "new", .atom fl, cfg, evs, sunTab, cronTab] =>
-    match cfg? cfg, Sexp.listOf? ev? evs, params? sunTab cronTab with
-    | some c, some es, some P =>
+    match cfgN? cfg, Sexp.listOf? ev? evs, params? sunTab cronTab with
+    | some (c, nSA, nTA), some es, some P =>
       let F := if fl == "rep" then Flags.repaired else if fl == "pre" then Flags.preFix else Flags.current
-      s!"model={showFlags (New.run F P c es GState.init)} spec={showFlags (Spec.runs P c es [])}"
+      s!"model={showFlags (New.runFn false F P c nSA nTA es)} spec={showFlags (Spec.runs P c es [])}"
     | _, _, _ => "err parse"
   | _ => "err bad-command"
 
